@@ -188,6 +188,31 @@ class HarnessGen:
         w('std::mem::forget(v); std::mem::forget(r);')
         w.close()
 
+    # ------------------------------------------------------------------ C16 static sizes
+    static_octets = {}
+
+    def h_c16(self, w: W, t: str, L: int):
+        """Schema says total_size == Static(8*N): every encoding has N octets, only N-octet inputs decode"""
+        N = self.static_octets[t]
+        w(f'#[kani::proof]\n#[kani::unwind({max(self.unwind_v(), 4)})]')
+        w.open(f'fn c16_{t}() {{')
+        self._draw(w, t)
+        w('kani::assume(ef.count == 0);')
+        w(f'let v = match build_{t}(&rv) {{ Some(v) => v, None => return }};')
+        w(f'let mut out = ArrBuf::<{max(self.rr.ocap, N + 8)}>::new();')
+        w('let r = v.encode(&mut out);')
+        w(f'if r.is_ok() {{ assert!(out.len == {N}, "C16: an encoding does not occupy the statically announced size"); kani::cover!(true, "accepting path"); }}')
+        w(f'assert!(ref_len_{t}(&rv) == {N}, "C16: the reference encoding does not occupy the statically announced size");')
+        w('std::mem::forget(v); std::mem::forget(r);')
+        if self.m.cost_class(t) == 'cheap':
+            w(f'let data: [u8; {N + 2}] = kani::any();')
+            w('let n: usize = kani::any();')
+            w(f'kani::assume(n <= {N + 2});')
+            w(f'let dr = {t}::decode_full(&data[..n]);')
+            w(f'if dr.is_ok() {{ assert!(n == {N}, "C16: decode_full accepts an input whose length is not the static size"); }}')
+            w('std::mem::forget(dr);')
+        w.close()
+
     # ------------------------------------------------------------------ C15 enum conversions
     def h_c15(self, w: W, e: str, L: int):
         """TryFrom<uN> / From<E> exact over the whole backing integer (no bound)"""
